@@ -322,6 +322,9 @@ class UB1:
                         tr = type_range(v.get("t"))
                         if tr != (-INF, INF):
                             st[v["n"]] = self.fit(val, tr)
+                        r = strip(v["c"][0])
+                        if r is not None and r["k"] in ("DeclRefExpr", "MemberExpr") and const_value(r) is None:
+                            st["?rel:%s<%s" % (v["n"], key(r))] = (0, 1)     # local <= source it was copied from
         elif k == "CallExpr":
             c = n.get("callee")
             if c in PURE_CALLS:
